@@ -15,7 +15,7 @@ PROPS = {
         level_note="the version attribute is rewritten with the HDF5 C API; the library version is read from a freshly created file",
         enum_text="cube [lib-2,lib+2]^3 x {ReadOnly,ReadWrite} x {None,Force} (500 opens), 8 extreme values per component, "
                   "ordering laws for all 15625 ordered pairs of the cube",
-        quick=dict(cases=8000, size=40, workers=16, timeout=900),
+        quick=dict(cases=8000, size=40, workers=16, timeout=600),
         thorough=dict(cases=70000, size=40, workers=16, timeout=7200),
         rule="tape -> (x,y,z) near the library version / extreme / arbitrary int, mode, Force flag; the version attribute "
              "of a valid file is rewritten with the HDF5 C API and File::open is compared with the statement; or three "
@@ -37,7 +37,7 @@ PROPS = {
         level_note="p+e is formed in double as the library documents; scaled requests use positions inside sample intervals and are skipped "
                    "(counted) when a 1e-9 relative change of the scaling factor would change the answer; known finding KF-1 is recognised by "
                    "its exact signature only",
-        quick=dict(cases=2500, size=200, workers=16, timeout=1800),
+        quick=dict(cases=2500, size=200, workers=16, timeout=600),
         thorough=dict(cases=30000, size=200, workers=16, timeout=14400),
         rule="tape -> array spec, tag request, mode, entry point, optional feature. Non-trivial: the expected region is a proper sub-block in "
              "a specified dimension with a boundary on or within one ulp of a coordinate, or a dimension is unspecified, or an error is "
@@ -55,7 +55,7 @@ PROPS = {
                    "feature = slice i of the first dimension, getOffsetAndCount equal to the block",
         level_note="as C05; tagged features of 1-D positions are 1-D (the statement pairs 1-D positions with 1-D data); known finding KF-1 is "
                    "recognised by its exact signature only (it needs extents)",
-        quick=dict(cases=600, size=300, workers=16, timeout=1800),
+        quick=dict(cases=600, size=300, workers=16, timeout=600),
         thorough=dict(cases=15000, size=300, workers=16, timeout=14400),
         rule="tape -> array spec, N, D', rows, mode, 1-4 single retrievals, one list retrieval, optional feature. Non-trivial: N >= 2 and a "
              "retrieval with i > 0, or no extents, or an expected error. Distinct = hash of the decoded case.",
@@ -74,7 +74,7 @@ PROPS = {
                    "request past the window throws nix::OutOfBounds, leaves the caller's buffer (sentinel) and the whole array unchanged",
         level_note="start == end accepts either the single element at or after start or an exception (the statement leaves it open); units "
                    "are only given for dimensions whose start and end are both given; scaled requests as in C05",
-        quick=dict(cases=2500, size=200, workers=16, timeout=1800),
+        quick=dict(cases=2500, size=200, workers=16, timeout=600),
         thorough=dict(cases=40000, size=200, workers=16, timeout=14400),
         rule="tape -> {slice case | view case}. Non-trivial: a slice with fewer start or end entries than dimensions, or with a bound on / "
              "one ulp beside a coordinate, or with start > end; a view case with a request crossing the window edge in exactly one "
@@ -94,7 +94,7 @@ PROPS = {
         level_note="tolerance 1e-12 relative for factors (products of decimal literals are not exact in binary); retrieval uses positions "
                    "inside sample intervals, cases whose rescaled values do not map back to within 1e-6 of a sample step are excluded and "
                    "counted; all units of one triple use the same power notation",
-        quick=dict(cases=700, size=200, workers=16, timeout=1800),
+        quick=dict(cases=700, size=200, workers=16, timeout=600),
         thorough=dict(cases=20000, size=200, workers=16, timeout=14400),
         rule="tape -> {unit algebra | retrieval pair}. Non-trivial: a multi-letter base unit with prefix and power (mmol^2, mSv^-1, ...), a "
              "rejected pair, or a retrieval pair whose two requests use different prefixes. Distinct = hash of the decoded case.",
@@ -115,7 +115,7 @@ PROPS = {
         level_note="an error is attributed by the entity id of the message; descriptor messages carry no entity id and are counted; "
                    "breaches that would cancel or invalidate each other (descriptors deleted under a breached tag unit, repeated edits of "
                    "one array) are not combined",
-        quick=dict(cases=300, size=400, workers=16, timeout=1800),
+        quick=dict(cases=300, size=400, workers=16, timeout=600),
         thorough=dict(cases=3000, size=400, workers=16, timeout=14400),
         rule="tape -> conforming file, breach list. Non-trivial: at least 2 blocks or an array of rank >= 2, at least one hard breach, and a "
              "breach that is not on the first array / first dimension / first unit / first feature. Distinct = hash of the decoded case.",
@@ -131,7 +131,7 @@ PROPS = {
         level_note="axis coordinates are computed by the documented expression index*interval+offset with -ffp-contract=off in library and "
                    "harness; for unbounded axes the reference search is a +-16 window around the real-number estimate, generators keep "
                    "ulp(x_max) < interval/8 so that the window is decisive (undecidable cases are counted as excluded)",
-        quick=dict(cases=4000, size=60, workers=16, timeout=1800),
+        quick=dict(cases=4000, size=60, workers=16, timeout=600),
         thorough=dict(cases=60000, size=60, workers=16, timeout=14400),
         rule="tape -> axis kind and parameters, 1-6 positions from classes {on coordinate i, one ulp above/below, midpoint, random between, "
              "below the first, one ulp below the first, beyond the last, far (1e9..DBL_MAX, bounded axes)}, 1-4 start/end pairs, a round-trip "
@@ -149,7 +149,7 @@ PROPS = {
         level_note="model = row-major vector + extent; calibrated reads are compared with the polynomial at (stored-origin) under a relative "
                    "tolerance of 1e-9 of the sum of the absolute terms (any evaluation order passes) and exactly when all operands are small "
                    "integers; cross-type reads only for values exactly representable in the requested type",
-        quick=dict(cases=1500, size=500, workers=16, timeout=1800),
+        quick=dict(cases=1500, size=500, workers=16, timeout=600),
         thorough=dict(cases=12000, size=500, workers=16, timeout=14400),
         rule="tape -> element type, rank 1-4, initial extent per axis (0, 1, 2-6), file/array compression, then up to 40 operations. "
              "Non-trivial: at least 2 writes, at least one extent change or append and at least one later read that overlaps both written "
@@ -165,7 +165,7 @@ PROPS = {
                    "ascending / interval > 0 / alias mirrors array are checked on the observed state",
         level_note="a call that throws must leave the model (and therefore the observed list) unchanged; a call that succeeds updates the model "
                    "with the values given, so an accepted illegal value fails the invariant; offset none is treated as 0.0",
-        quick=dict(cases=1200, size=300, workers=16, timeout=1800),
+        quick=dict(cases=1200, size=300, workers=16, timeout=600),
         thorough=dict(cases=10000, size=300, workers=16, timeout=14400),
         rule="tape -> element type, rank, up to 30 operations {append x5 kinds, modify parameter of descriptor k, deleteDimensions, reopen ro/rw, "
              "array-side writes, late alias}. Non-trivial: at least 3 descriptors of at least 2 kinds with a modification after a reopen, or an "
@@ -181,7 +181,7 @@ PROPS = {
                    "valueCount(), dataType(), unit, uncertainty, definition are compared with the model",
         level_note="doubles compared bitwise except NaN (by class); the value count of a property created without values is not asserted "
                    "before the first assignment; units without blanks (the setter removes blanks)",
-        quick=dict(cases=2500, size=300, workers=16, timeout=1800),
+        quick=dict(cases=2500, size=300, workers=16, timeout=600),
         thorough=dict(cases=20000, size=300, workers=16, timeout=14400),
         rule="tape -> value type, creation overload, up to 24 operations. Non-trivial: assignments of at least 2 different lengths with a reopen "
              "inside the history, or a rejected wrong-type/mixed-type assignment. Distinct = hash of the decoded history.",
@@ -195,7 +195,7 @@ PROPS = {
                    "back through readRow, readCells, readCell and readColumn (resize on/off, offset) and compared with the model table, "
                    "together with columns(), colIndex, colName, rows()",
         level_note="std::vector<bool> has no column front end, Bool columns are read through the row and cell paths only",
-        quick=dict(cases=200, size=300, workers=16, timeout=1800),
+        quick=dict(cases=200, size=300, workers=16, timeout=600),
         thorough=dict(cases=3000, size=300, workers=16, timeout=14400),
         rule="tape -> schema, compression, up to 20 operations. Non-trivial: a cell/column write together with at least 2 row-count changes, or a "
              "String column with rows that were never written. Distinct = hash of the decoded history.",
@@ -211,7 +211,7 @@ PROPS = {
                    "members no longer found; survivors keep their relative order and new members follow them; the same after a final reopen",
         level_note="tag references and attached sources are looked up by id only (their getters are documented as id lookups); the order of a "
                    "list that was replaced as a whole by a vector setter is not compared for that one step",
-        quick=dict(cases=100, size=400, workers=16, timeout=1800),
+        quick=dict(cases=100, size=400, workers=16, timeout=600),
         thorough=dict(cases=1200, size=400, workers=16, timeout=14400),
         rule="tape -> program (harness/prog.hpp, profile Valid). Non-trivial: at least 3 successful creates, at least one successful delete/"
              "remove, and a member with a special name ('..', UUID-shaped, case/blank variant, UTF-8, '%', '.') was looked up. Distinct = hash of "
@@ -227,7 +227,7 @@ PROPS = {
                    "executable defines time(), so equal / adjacent / distant start seconds are produced at will), created by exec or by fork "
                    "from a parent that has already created ids; all ids of all processes must be pairwise distinct and well-formed",
         level_note="distinctness of random ids is probabilistic: the check can show collisions, not their impossibility; only time() is faked",
-        quick=dict(cases=300, size=300, workers=16, timeout=1800),
+        quick=dict(cases=300, size=300, workers=16, timeout=600),
         thorough=dict(cases=2500, size=300, workers=16, timeout=14400),
         rule="tape -> history (profile Valid, reopen steps) or schedule (process count, start seconds, exec or fork, ids per process). Non-"
              "trivial: history with at least 2 sessions and 3 creates; schedule with at least 2 processes sharing a start second, or forked "
@@ -247,7 +247,7 @@ PROPS = {
                    "Source::findSources includes it (depth 0), File::findSections roots = depth 1, Block::findSources roots = depth 0; "
                    "findRelated is only required to return filter-satisfying sections other than the start, each once (the statement does "
                    "not define it further); type filters use alphanumeric types (the filter is a regex)",
-        quick=dict(cases=150, size=1500, workers=16, timeout=1800),
+        quick=dict(cases=150, size=1500, workers=16, timeout=600),
         thorough=dict(cases=4000, size=1500, workers=16, timeout=14400),
         rule="tape -> trees, assignments, deletions, 4-16 search queries and up to 8 back-reference query groups. Non-trivial: a search "
              "with a depth limit strictly inside a subtree of depth >= 3 whose filter matched nodes on at least 2 levels, in a file that "
@@ -267,7 +267,7 @@ PROPS = {
                    "the bytes alone, Overwrite still yields an empty valid file; both compression defaults",
         level_note="must-throw is decided by the twin: a call that has no effect on a ReadWrite copy (setting the value already stored, "
                    "removing something absent) carries no obligation; updated_at is not part of the snapshot but is part of the bytes",
-        quick=dict(cases=400, size=600, workers=16, timeout=1800),
+        quick=dict(cases=400, size=600, workers=16, timeout=600),
         thorough=dict(cases=8000, size=600, workers=16, timeout=14400),
         rule="tape -> {session | modes | header defect}. Non-trivial: a ReadOnly session on a file with at least 6 entities in which at least "
              "5 distinct kinds of effective mutators were refused; a mode case on a file with at least 4 entities; every header defect case. "
@@ -286,7 +286,7 @@ PROPS = {
                    "handles must throw, the bytes must not change, Overwrite must succeed",
         level_note="covers the death of the process (what the statement says), not of the operating system; a crash between a modification "
                    "and the next flush has no required outcome and is not generated; flush() returning false carries no obligation",
-        quick=dict(cases=300, size=600, workers=16, timeout=1800),
+        quick=dict(cases=300, size=600, workers=16, timeout=600),
         thorough=dict(cases=4000, size=600, workers=16, timeout=14400),
         rule="tape -> {crash case | handles case}. Non-trivial: a kill right after a flush that followed at least 1 successful delete/"
              "unlink and 3 creates; a close with live handles of at least 3 different kinds. Distinct = hash of the decoded case.",
@@ -307,7 +307,7 @@ PROPS = {
         level_note="only crash- / leak- artifacts count, oom- / timeout- / slow-unit- are load noise and listed; libFuzzer runs are only "
                    "approximately reproducible from the seed, the saved input (converted to a tape and replayed 3x) is the reproducible unit; "
                    "sizes are small or absurd so that memory pressure is never the signal; -DNDEBUG as shipped",
-        quick=dict(cases=120, size=500, workers=16, timeout=2400),
+        quick=dict(cases=120, size=500, workers=16, timeout=700),
         thorough=dict(cases=2500, size=500, workers=16, timeout=14400),
         fuzz=dict(bin="fz_api", max_len=4096, quick=dict(procs=8, runs=2000), thorough=dict(procs=16, runs=20000)),
         rule="tape -> program. Non-trivial (counted on the rapidcheck side, libFuzzer executions are counted in evaluations and by its "
@@ -325,7 +325,7 @@ PROPS = {
                    "the whole file (and of the foreign file) must equal the snapshot taken before the call",
         level_note="one step of a program is exactly one mutating API call; a call that does not throw is outside this property; the snapshot "
                    "reads everything through public getters (updated_at excluded)",
-        quick=dict(cases=200, size=400, workers=16, timeout=1800),
+        quick=dict(cases=200, size=400, workers=16, timeout=600),
         thorough=dict(cases=2500, size=400, workers=16, timeout=14400),
         rule="tape -> program (see harness/prog.hpp, profile Reject). Non-trivial: at least one call was rejected in a state with at least 4 "
              "entities. The evidence lists per rejection class how many rejected calls were checked. Distinct = hash of the decoded program.",
@@ -339,7 +339,7 @@ PROPS = {
                    "at the end the snapshot taken before close() must equal the snapshot after a ReadOnly reopen, after a ReadWrite reopen and "
                    "(40% of the cases) the snapshot printed by a freshly started process",
         level_note="snapshot = every getter of every entity incl. all stored data, ids, created_at, links and order; updated_at excluded",
-        quick=dict(cases=200, size=400, workers=16, timeout=1800),
+        quick=dict(cases=200, size=400, workers=16, timeout=600),
         thorough=dict(cases=2500, size=400, workers=16, timeout=14400),
         rule="tape -> program (profile Valid). Non-trivial: at least one successful delete/unlink, entities of at least 4 kinds besides the file, "
              "and at least one link alive at the final close. Distinct = hash of the decoded program.",
@@ -353,7 +353,7 @@ PROPS = {
                    "delete the new snapshot must equal the old one with the victim (and its subtree) removed and every link to a removed id "
                    "gone - nothing else may differ - and the handle held from before reports itself invalid",
         level_note="prune is a pure function on the snapshot tree; deleteDimensions has no victim id and is covered by C13",
-        quick=dict(cases=150, size=400, workers=16, timeout=1800),
+        quick=dict(cases=150, size=400, workers=16, timeout=600),
         thorough=dict(cases=2000, size=400, workers=16, timeout=14400),
         rule="tape -> program (profile Valid). Non-trivial: a victim that was referenced by holders of at least 2 different kinds, or whose "
              "subtree holds at least 3 entities. Distinct = hash of the decoded program.",
